@@ -140,15 +140,12 @@ def check(ctx):
         reads = b.effects('OPEN_READ')
         ok = True
         for e in reads:
-            guarded = False
-            for c, pol, n in guards(b, e.id):
-                c2, p2 = unwrap_not(c, pol)
-                if isinstance(c2, MCall) and c2.name == 'endswith' and p2 and c2.args and \
-                        is_const(strip(c2.args[0]), '.trashinfo'):
-                    guarded = True
-                if isinstance(c2, Cmp) and c2.op == '==' and p2 and \
-                        is_const(strip(c2.right), 'trashinfo'):
-                    guarded = True
+            guarded = established(
+                b, e.id, lambda c2, p2: (isinstance(c2, MCall) and c2.name == 'endswith' and
+                                         p2 and bool(c2.args) and
+                                         is_const(strip(c2.args[0]), '.trashinfo')) or
+                (isinstance(c2, Cmp) and c2.op == '==' and p2 and
+                 is_const(strip(c2.right), 'trashinfo')))
             ok = ok and guarded
         ctx.ob('R19.3', '%s: only *.trashinfo names are read as entries' % cmd,
                ok and bool(reads), construct=b.func.qualname, text='suffix filter',
